@@ -96,7 +96,11 @@ func (in *Interp) eval(fr *frame, v ssa.Value) Value {
 			idx := in.checkIndex(in.get(fr, i.Index).(*Term), len(x), i.Pos())
 			return BVc(8, uint64(x[idx]))
 		case *MapV:
-			k := in.mapKey(in.get(fr, i.Index))
+			kv := in.get(fr, i.Index)
+			if kt, isT := kv.(*Term); isT && !kt.Const {
+				kv = in.symbolicKey(x, kt)
+			}
+			k := in.mapKey(kv)
 			var val Value
 			ok := false
 			if p, found := x.get(k); found {
@@ -124,8 +128,13 @@ func (in *Interp) eval(fr *frame, v ssa.Value) Value {
 		lt := in.get(fr, i.Len).(*Term)
 		ct := in.get(fr, i.Cap).(*Term)
 		if !lt.Const || !ct.Const {
-			lim := BVc(64, 1<<30)
-			okc := And(BVCmp("le", false, SignExt(lt, 64), lim), And(BVCmp("le", false, SignExt(ct, 64), lim), BVCmp("le", true, SignExt(lt, 64), SignExt(ct, 64))))
+			// runtime.makeslice panics iff len < 0, len > cap or cap*elemsize exceeds maxAlloc (2^48 on amd64)
+			es := stdSizes.Sizeof(i.Type().Underlying().(*types.Slice).Elem())
+			if es < 1 {
+				es = 1
+			}
+			lim := BVc(64, uint64((1<<48)/es))
+			okc := And(BVCmp("le", false, SignExt(ct, 64), lim), BVCmp("le", false, SignExt(lt, 64), SignExt(ct, 64)))
 			if !in.branch(okc) {
 				in.goPanicf(i.Pos(), "makeslice: len or cap out of range")
 			}
@@ -134,6 +143,9 @@ func (in *Interp) eval(fr *frame, v ssa.Value) Value {
 		c := in.cint(ct)
 		if n < 0 || c < n {
 			in.goPanicf(i.Pos(), "makeslice: len out of range")
+		}
+		if c > 1<<22 {
+			in.fail("bound", fmt.Sprintf("allocation of %d elements at %s is beyond what the engine models", c, in.at(i.Pos())))
 		}
 		d := make([]Value, n, c)
 		et := i.Type().Underlying().(*types.Slice).Elem()
@@ -197,6 +209,44 @@ func (in *Interp) eval(fr *frame, v ssa.Value) Value {
 	}
 	in.fail("unsupported", fmt.Sprintf("value %T: %s in %s", v, v, fr.fn))
 	return nil
+}
+
+// symbolicKey resolves a lookup with a symbolic integer key by forking over the keys present in the
+// map plus the alternative "none of them" (for which any absent concrete key is representative).
+func (in *Interp) symbolicKey(m *MapV, kt *Term) Value {
+	live := m.live()
+	var keys []*Term
+	for _, j := range live {
+		if t, ok := m.keys[j].(*Term); ok && t.Const && t.W == kt.W {
+			keys = append(keys, t)
+		}
+	}
+	none := Boolc(true)
+	for _, t := range keys {
+		none = And(none, Not(Eq(kt, t)))
+	}
+	k := in.decide(len(keys)+1, func(i int) *Term {
+		if i < len(keys) {
+			return Eq(kt, keys[i])
+		}
+		return none
+	}, false)
+	if k < len(keys) {
+		return keys[k]
+	}
+	// a key that is not in the map: pick any such concrete value
+	for c := uint64(0); ; c++ {
+		cand := BVc(kt.W, c)
+		found := false
+		for _, t := range keys {
+			if t.U == cand.U {
+				found = true
+			}
+		}
+		if !found {
+			return cand
+		}
+	}
 }
 
 func (in *Interp) newMapIter(m *MapV) *mapIter {
